@@ -387,6 +387,68 @@ def cross_session(item):
     return part
 
 
+def listing_during_change(item):
+    """another session removes / creates a sibling while the listing is under way (lock-step data connection, so the
+    listing worker is suspended between entries): every entry that exists from start to end is reported exactly once,
+    nothing is invented; the entry that comes or goes may or may not be seen"""
+    backend, verb, action, victim, k = item
+    part = report.Partial()
+    names = ["a", "b", "c", "d", "e"]
+    rig = Rig(tree={"dir": {n: b"x" for n in names}}, backend=backend, n_sessions=2, window=1, epoch0=EPOCH)
+    problems = []
+    try:
+        w = rig.world
+        for i in (0, 1):
+            rig.ev(i, "@connect")
+            rig.ev(i, "USER anonymous")
+        rig.ev(0, "EPSV")
+        rig.ev(0, "@data")
+        state = {"done": False}
+        w.net.n_events = 0
+
+        def on_event(nev):
+            if not state["done"] and nev == k:
+                state["done"] = True
+                s1 = rig.sessions[1]
+                s1.ctl.send((("DELE /dir/" + victim) if action == "delete" else ("MKD /dir/" + victim)) + "\r\n")
+
+        w.net.on_event = on_event
+        rig.ev(0, verb + " dir")
+        w.settle()
+        rig.collect()
+        w.net.on_event = None
+        s0 = rig.sessions[0]
+        raw = s0.data.received if s0.data is not None else b""
+        from vf.conform import parse_names
+        got = parse_names(verb.lower(), raw)
+        stable = [n for n in names if not (action == "delete" and n == victim)]
+        allowed = set(names) | ({victim} if action == "create" else set())
+        codes = [c for _, rr in s0.transcript[-2:] for c, _ in rr]
+        if "226" in codes or "200" in codes:
+            for n in stable:
+                if got.count(n) != 1:
+                    problems.append({"kind": "entry-that-exists-throughout-listed-%d-times" % got.count(n), "via": verb.lower(),
+                                     "name": n, "got": got})
+                    break
+            extra = [n for n in got if n not in allowed]
+            if extra:
+                problems.append({"kind": "invented-entry", "via": verb.lower(), "got": got})
+        part.evaluations += 1
+        part.traces += 1
+        part.transitions += w.net.n_events
+        kk = report.fp(["listing-during-change", backend, verb, action, victim, k, state["done"]])
+        part.states.add(kk)
+        if state["done"]:
+            part.nontrivial.add(kk)
+        part.outcomes[report.fp(sorted(got))] += 1
+        for p in problems[:1]:
+            part.violation({"kind": p["kind"], "via": p["via"], "backend": backend, "concurrent": action},
+                           {"problem": p, "victim": victim, "after_event": k}, replay={"during": list(item)})
+    finally:
+        rig.close()
+    return part
+
+
 def faulty_listing(item):
     """one backend call of the listing fails: the client must learn that the listing failed - a listing that is
     reported complete has every entry exactly once"""
@@ -472,6 +534,10 @@ def run(tier, seed, t0):
     aged = [(zone, gap, when) for zone in ZONES for gap, when in ((90, 30), (90, 89), (3600, 1800), (700, 61), (10, 5))]
     parts = report.pmap(plane_work, items) + report.pmap(wire_case, wire_items(tier)) + report.pmap(late_listing, late) \
         + report.pmap(faulty_listing, faulty) + report.pmap(aged_listing, aged) \
+        + report.pmap(listing_during_change, [(b, v, act, victim, k) for b in ("memory", "pathio", "async")
+                                              for v in ("LIST", "MLSD")
+                                              for act, victims in (("delete", ("a", "c", "e")), ("create", ("0", "cc", "z")))
+                                              for victim in victims for k in range(1, 40 if tier == "quick" else 80, 2 if tier == "quick" else 1)]) \
         + report.pmap(cross_session, [(b, h) for b in ("memory", "pathio", "async")
                                       for h in ("delete-upload", "rename-into-place", "overwrite")])
     part = report.merge_all(parts)
@@ -479,6 +545,8 @@ def run(tier, seed, t0):
     bounds = {"now_values": len(ns), "years": [years[0], years[-1]], "mtime_range": "now-400d .. now+3d",
               "dense_windows": "every minute within +-%s of now, now-half-year, New Year, Mar 1; stride 67 min elsewhere"
                                % ("2 d" if tier != "quick" else "6 h"),
+              "listing_during_change": "5 entries, lock-step data connection; another session deletes / creates a sibling after "
+                                       "every network event of the listing; LIST and MLSD, 3 backends",
               "cross_session": "a second session replaces a file (3 ways) and a directory between two looks of the first; 3 backends",
               "aged_listing": "LIST verb, data connection 10 s .. 1 h later, an entry created in between (both zones)",
               "faulty_listing": "4 entries, MLSD and LIST, the k-th backend call of the listing fails, k=1..15",
@@ -500,6 +568,8 @@ def replay(path):
     rp = data.get("replay") or {}
     if "faulty" in rp:
         part = faulty_listing(tuple(rp["faulty"]))
+    elif "during" in rp:
+        part = listing_during_change(tuple(rp["during"]))
     elif "cross" in rp:
         part = cross_session(tuple(rp["cross"]))
     elif "aged" in rp:
